@@ -41,6 +41,8 @@ var (
 	nt = model.N("/t", "a")
 	// tW: exactly 2^64 ns after T1 (outside the range of UnixNano, where that value wraps onto T1's)
 	tW = model.T1.Add(1 << 62).Add(1 << 62).Add(1 << 62).Add(1 << 62)
+	// tQ: 250 ms after T1, inside the same wall-clock second
+	tQ = model.T1.Add(250 * time.Millisecond)
 )
 
 // universe: every pair of triples differs in as few components as possible, so
@@ -51,6 +53,7 @@ func universe(n int) []*triple.Triple {
 		model.T(na, p, model.ON(nb)),                                               // 0 base
 		model.T(na, model.PT("p", model.T1), model.ON(nb)),                         // 1 same id, temporal
 		model.T(na, model.PT("p", tW), model.ON(nb)),                               // 2 same id, other instant (2^64 ns later)
+		model.T(na, model.PT("p", tQ), model.ON(nb)),                               // same id, an instant inside the same second as T1 (250 ms later)
 		model.T(nt, p, model.ON(nb)),                                               // 3 other subject: the same id under another type
 		model.T(na, p, model.ON(nc)),                                               // 4 other object
 		model.T(na, model.PI(longX+"q"), model.ON(nb)),                             // 5 other predicate id
@@ -66,7 +69,7 @@ func universe(n int) []*triple.Triple {
 var (
 	argS = []*node.Node{na, nc, nb, nz, nt}
 	argP = []*predicate.Predicate{
-		model.PI("p"), model.PT("p", model.T1), model.PT("p", tW),
+		model.PI("p"), model.PT("p", model.T1), model.PT("p", tW), model.PT("p", tQ),
 		model.PT("p", model.T3),                              // anchor never stored
 		model.PI(longX + "q"), model.PT(longX+"q", model.T1), // q@T1 stored only in the larger universe
 		model.PI(longX + "r"),                 // identifier never stored
@@ -349,7 +352,7 @@ func main() {
 	r.Assume("the universe avoids node pairs whose type+id concatenations coincide (C01/C06 own that finding)")
 	r.Assume("channels are buffered (64) so each lookup runs on the caller's goroutine; 'closed' means closed when the method returned")
 
-	n := r.Pick(8, 10)
+	n := r.Pick(9, 11)
 	u := universe(n)
 	ops := alphabet(n)
 	paths := map[uint32][]op{0: {}}
@@ -463,7 +466,7 @@ func main() {
 	}
 	r.Set("result_size_histogram", hist)
 	r.Set("nontrivial_per_method", perMethodNontrivial)
-	r.Set("rule", "BFS over all subsets of the universe x {add,remove} x {every singleton, every 2-batch}, each transition replayed plainly and with every read issued just before its last write (read, write, read); after each replayed transition: listing + 10 methods x (5 subjects x 8 predicates x 8 objects as applicable), default options; nontrivial = the model expects at least one result and at least one stored triple does not match")
+	r.Set("rule", "BFS over all subsets of the universe x {add,remove} x {every singleton, every 2-batch}, each transition replayed plainly and with every read issued just before its last write (read, write, read); after each replayed transition: listing + 10 methods x (5 subjects x 9 predicates x 8 objects as applicable), default options; nontrivial = the model expects at least one result and at least one stored triple does not match")
 	r.Sample(map[string]interface{}{"path": paths[order[len(order)/2]], "then": ops[len(ops)/3], "query": qs[len(qs)/2]})
 	r.Sample(map[string]interface{}{"path": paths[order[len(order)-1]], "then": ops[0], "query": qs[0]})
 	r.Finish()
